@@ -257,7 +257,6 @@ class Types:
             return 'struct seq_' + m
         if cls == 'bt':
             m = self.mangle(t.args[0])
-            self.need('DECL_SEQ', m, self.ctype(t.args[0]))
             self.need('DECL_BT', m, self.ctype(t.args[0]))
             return 'struct bt_' + m
         if cls == 'pair':
